@@ -59,10 +59,13 @@ Definition fmismatches (cs : list fcase) : list N := fmismatches_from 0%N cs.
 
 (** ------------------------------------------------------------------ *)
 (** Histories for the at-most-once theorem (C29): timed deliveries and
-    cleanup passes on one flooder.  The victims of the size-based eviction
+    cleanup passes on one flooder.  A delivery is the pair (timestamp check,
+    check-and-mark) of one handler; its place in the history is that of its
+    marking (one critical section), its timestamp check happened [d] earlier,
+    so that handlers overlapping each other and cleanup passes are covered.  The victims of the size-based eviction
     (Go map iteration order) are an oracle carried by the cleanup step. *)
 Inductive fop :=
-| ORecv (from : N) (c : cmd)
+| ORecv (from : N) (c : cmd) (d : Z)   (* marked at the step's instant, timestamp checked [d] earlier *)
 | OCleanup (victims : list nat).
 
 (** would the size-based eviction run at this cleanup pass? *)
@@ -70,7 +73,7 @@ Definition overflows_with (expiry : fcfg -> Z) (cfg : fcfg) (now : Z) (ca : list
   f_max cfg <? Z.of_nat (length (expire now (expiry cfg) ca)).
 
 Section Run.
-  Variable hdl : fcfg -> Z -> list N -> N -> cmd -> list entry -> list entry * option (list N).
+  Variable hdl : fcfg -> Z -> Z -> list N -> N -> cmd -> list entry -> list entry * option (list N).
   Variable expiry : fcfg -> Z.
 
   (** accepted deliveries (instant, command) in order, and whether the
@@ -79,8 +82,8 @@ Section Run.
     : list (Z * cmd) * bool :=
     match h with
     | [] => ([], false)
-    | (now, ORecv from c) :: r =>
-        let '(ca', res) := hdl cfg now peers from c ca in
+    | (now, ORecv from c d) :: r =>
+        let '(ca', res) := hdl cfg (now - d) now peers from c ca in
         let '(acc, ov) := run_with cfg peers ca' r in
         (match res with Some _ => (now, c) :: acc | None => acc end, ov)
     | (now, OCleanup v) :: r =>
@@ -90,8 +93,8 @@ Section Run.
     end.
 End Run.
 
-Definition run := run_with handle sleep_expiry.
-Definition run_pre_fix := run_with handle_pre_fix sleep_expiry_pre_fix.
+Definition run := run_with handle_split sleep_expiry.
+Definition run_pre_fix := run_with (fun cfg _ now => handle_pre_fix cfg now) sleep_expiry_pre_fix.
 
 (** identity of a command: what is signed *)
 Definition cmd_id (c : cmd) : N * N * N := (c_origin c, c_id c, c_ts c).
